@@ -12,7 +12,7 @@ META = dict(
                  'post-increment/decrement of a tainted_volatile pointer and unary & of a non-const struct tainted_volatile do not compile and are absent'],
 )
 
-GROUPS = [('a', 'char, short, long'), ('b', 'int, long long, double'), ('c', 'int*, long*, VS'), ('d', 'int[4], long[3]'), ('e', 'long_2x3, char_3x2, intp_2x2'), ('f', 'clong_4, cchar_5')]
+GROUPS = [('a', 'char, short, long'), ('b', 'int, long long, double'), ('c', 'int*, long*, VS'), ('g', 'VT'), ('d', 'int[4], long[3]'), ('e', 'long_2x3, char_3x2, intp_2x2'), ('f', 'clong_4, cchar_5')]
 
 
 def run(ctx):
@@ -20,7 +20,7 @@ def run(ctx):
     for g, types in GROUPS:
         specs.append(('c05_mask16_' + g, 'c05.cpp', dict(opt='-O1', defs=['C05_TYPES=' + types])))
     specs.append(('c05_reg16', 'c05.cpp', dict(opt='-O1', defs=['C05_TYPES=char, long, int*', 'C05_MODE=REGISTRY'])))
-    specs.append(('c05_mask32', 'c05.cpp', dict(opt='-O1', defs=['C05_TYPES=char, long, VS', 'C05_PTR=uint32_t'])))
+    specs.append(('c05_mask32', 'c05.cpp', dict(opt='-O1', defs=['C05_TYPES=char, long, VS, VT', 'C05_PTR=uint32_t'])))
     specs.append(('c05_mask64', 'c05.cpp', dict(opt='-O1', defs=['C05_TYPES=char, long, int*, VS', 'C05_PTR=uint64_t', 'C05_LOG=16'])))
     bins = ctx.build_many(specs)
     args = ['--thorough'] if ctx.thorough else []
